@@ -17,6 +17,7 @@ CONSTANTS
   Both = TRUE
   PickMode = "any"
   JunkKinds <- JAll
+  KeepHist = TRUE
   D = 0
 INIT TrInit
 NEXT TrNext
